@@ -526,6 +526,26 @@ func genRecvCases(g *Gen, kind uint64, n int, directedRelink bool) {
 				}
 			}
 		}
+		if r.Chance(3) {
+			// directed: a hard-link entry naming a missing path or a directory: os.Link fails,
+			// HandleChange returns an error (model: apply_map = None)
+			var dirs []string
+			for _, e := range Bl {
+				if os.FileMode(e.St.Mode).IsDir() {
+					dirs = append(dirs, e.St.Path)
+				}
+			}
+			for _, e := range Bl {
+				if os.FileMode(e.St.Mode)&os.ModeType == 0 && e.St.Linkname == "" && r.Chance(50) {
+					e.St.Linkname = "nonexistent"
+					if len(dirs) > 0 && r.Bool() {
+						e.St.Linkname = Pick(r, dirs)
+					}
+					cls = "directed-bad-link-target"
+					break
+				}
+			}
+		}
 		differ, mode, order := 0, 0, uint64(0)
 		if r.Chance(10) {
 			differ = 1
